@@ -29,7 +29,8 @@ RULE = ('each run = generated repository + 2-8 operation calls over all '
         'string was used; distinct = digest of (operation, sent/failed '
         'locally, problem kinds)')
 COMPONENTS = {
-    'real': ['WBEMConnection operation methods, _iparam_*, _imethodcall, '
+    'real': ['pywbem/_listener.py responses (listener world, 20% of runs)',
+             'WBEMConnection operation methods, _iparam_*, _imethodcall, '
              '_methodcall, _cim_xml, _cim_obj.tocimxml, _cim_http',
              'requests/urllib3/http.client', 'lxml XML parser + DTD validator '
              'with tests/dtd/DSP0203_2.3.1.dtd'],
@@ -168,8 +169,14 @@ def gen_plan(run_seed, tier, index):
         o2, k = adversarial(op, ar)
         nadv += k
         out.append(o2)
-    return {'check': ID, 'model_seed': mseed, 'default_ns': dn, 'ops': out,
+    plan = {'check': ID, 'model_seed': mseed, 'default_ns': dn, 'ops': out,
             'nadv': nadv, 'ids_seed': r.getrandbits(32)}
+    if r.random() < 0.2:
+        # the clause about the listener's responses: a request sequence for
+        # the listener world (same generator and oracle as C17)
+        from checks import c17
+        plan['listener'] = c17.gen_plan(run_seed, tier, index)
+    return plan
 
 
 def execute(plan):
@@ -246,6 +253,15 @@ def execute(plan):
             net.uninstall()
     finally:
         uuid.uuid4 = saved_uuid4
+    if plan.get('listener'):
+        from checks import c17
+        lres = c17.execute(plan['listener'])
+        bump('listener_runs')
+        trace.append(('listener', lres['fingerprint']))
+        for v in lres['violations']:
+            if v['sig'].startswith(('C17/response-not', 'C17/malformed-'
+                                    'response', 'C17/header-crlf')):
+                viol('listener-' + v['sig'][4:], v['msg'])
     seen = set()
     out = []
     for v in V:
@@ -288,3 +304,12 @@ def shrink_candidates(plan):
         p = copy.deepcopy(plan)
         p['default_ns'] = None
         yield p
+    if plan.get('listener'):
+        p = copy.deepcopy(plan)
+        del p['listener']
+        yield p
+        from checks import c17
+        for lp in c17.shrink_candidates(plan['listener']):
+            p = copy.deepcopy(plan)
+            p['listener'] = lp
+            yield p
